@@ -8,7 +8,8 @@ from vlib.harness import Violation
 PID = "C25"
 RULE = ("histories of 3..20 client calls (thorough ..50) by one account (one shared ExecutionContext, as PyTezosClient does) against "
         "a simulated node whose account counter and mempool evolve: build a group of 1..3 transfers (fields left to the client spelled '0' or ''), "
-        "or a contract call built from a contract interface pinned to a past block, fill() / autofill() it one or "
+        "or a contract call built from a contract interface pinned to a past block, or a batch assembled by client.bulk() from groups that "
+        "may have been filled on their own before (a fill / autofill may also find the node's mempool endpoint closed and fail), fill() / autofill() it one or "
         "more times (the simulation may fail), fill()/autofill() the already filled group again, sign, inject (the node may "
         "refuse), send() (= autofill+sign+inject), a fill()/autofill() that raises on the client side (a content that cannot be forged), bake (pending operations are applied: counter advances, mempool empties), "
         "another account injects. Discipline: one group at a time (a group is injected or dropped after a refused injection "
@@ -121,6 +122,21 @@ class World:
                 self.g0 = pinned.default(s["k"]).as_transaction()
                 self.g0 = OperationGroup(context=self.ctx, contents=self.g0.contents) if s.get("rebind") else self.g0
                 self.flags.add("built-from-pinned-contract")
+            elif s.get("via") == "bulk":
+                # a batch assembled with client.bulk() from single groups, some of which were filled / autofilled on their own before
+                from pytezos.client import PyTezosClient
+                members = []
+                self.sim_ok = True
+                for i, pre in enumerate(s["prefill"]):
+                    g = OperationGroup(context=self.ctx, contents=[_transfer(i)])
+                    if pre == "fill":
+                        g = g.fill()
+                    elif pre == "autofill":
+                        g = g.autofill()
+                    members.append(g)
+                self.g0 = PyTezosClient(context=self.ctx).bulk(*members)
+                if any(s["prefill"]):
+                    self.flags.add("bulk-of-filled-groups")
             else:
                 self.g0 = OperationGroup(context=self.ctx, contents=[_transfer(i, s.get("blank", "0")) for i in range(s["k"])])
             self.gf = self.gs = None
@@ -130,14 +146,21 @@ class World:
             if self.g0 is None:
                 return "skip"
             self.sim_ok = s.get("sim_ok", True)
+            self.node.mempool_down = bool(s.get("mempool_down"))
             try:
                 self.gf = self.g0.fill() if op == "fill" else self.g0.autofill()
             except RpcError:
+                if self.node.mempool_down:   # the node refuses to show its mempool: the call fails, nothing was filled
+                    self.node.mempool_down = False
+                    self.flags.add("mempool-not-exposed")
+                    self.trouble_before = True
+                    return "mempool-refused"
                 if self.sim_ok:
                     raise
                 self.flags.add("failed-simulation")
                 self.trouble_before = True
                 return "sim-failed"
+            self.node.mempool_down = False
             self.gs = None
             self.fills_of_current += 1
             if self.fills_of_current > 1:
@@ -242,8 +265,10 @@ def histories(draw, max_steps):
             s = {"op": op}
             if op == "autofill":
                 s["sim_ok"] = draw(st.integers(0, 4)) != 0
+            if op in ("fill", "autofill") and draw(st.integers(0, 7)) == 0:
+                s["mempool_down"] = True    # this call finds the mempool endpoint closed
             out.append(s)
-        if out[-1]["op"] == "autofill" and not out[-1]["sim_ok"]:
+        if (out[-1]["op"] == "autofill" and not out[-1]["sim_ok"]) or out[-1].get("mempool_down"):
             out.append({"op": draw(st.sampled_from(["fill", "autofill"])), "sim_ok": True})
         if out[0]["op"] in ("refill", "reautofill"):
             out.insert(0, {"op": draw(st.sampled_from(["fill", "autofill"])), "sim_ok": True})
@@ -257,6 +282,8 @@ def histories(draw, max_steps):
         steps.append({"op": "build", "k": draw(st.integers(1, 3)), "blank": draw(st.sampled_from(["0", "0", ""]))})
         if draw(st.integers(0, 3)) == 0:
             steps[-1].update(via="contract", back=draw(st.integers(0, 3)))
+        elif draw(st.integers(0, 4)) == 0:
+            steps[-1].update(via="bulk", prefill=draw(st.lists(st.sampled_from([None, "fill", "autofill"]), min_size=2, max_size=3)))
         if draw(st.integers(0, 4)) == 0:
             steps.append({"op": "send", "accept": draw(st.integers(0, 4)) != 0, "drop": True})
             continue
